@@ -6,7 +6,9 @@
 // that must print the same lines.
 //
 // Case lines
-//   1 start end shape op [prod] prod 1: the targets are the three fields of ONE producer node's bundle output
+//   1 start end shape op [prod [wrap]]  wrap 1..4 (ops 0,1,6,7,8): the consumers sit in their OWN nested graph and the
+//                               dereferenced value reaches them through a nested pass-through (depths 1/2 each)
+//                               prod 1: the targets are the three fields of ONE producer node's bundle output
 //                               (selected through getattr_), 0/absent: outputs of separate source nodes
 //                               shape 0 TS<Int>, 1 TSS<Int>, 2 TSD<Int,TS<Int>>
 //                               op    0 if_then_else, 1 if_cmp,
@@ -352,10 +354,41 @@ namespace
         }
     };
 
+    // a value passed THROUGH a nested graph (depth 1 / 2), and the consumers in their OWN nested graph (depth 1 / 2)
+    template <typename S>
+    struct PassThrough
+    {
+        static constexpr auto name = "hgv_pass_through";
+        static Port<S>        compose(Wiring &, Port<S> ts) { return ts; }
+    };
+    template <typename S>
+    struct PassThrough2
+    {
+        static constexpr auto name = "hgv_pass_through2";
+        static Port<S>        compose(Wiring &w, Port<S> ts) { return nested_<PassThrough<S>>(w, ts); }
+    };
+    template <typename S>
+    struct Below2
+    {
+        static constexpr auto name = "hgv_below2";
+        static void           compose(Wiring &w, Port<S> sel, Port<TS<Int>> poke) { nested_<Below<S>>(w, sel, poke); }
+    };
+
     template <typename S, typename PA, typename PB, typename PC, typename PP>
-    void wire_ops(Wiring &w, std::int64_t op, PA a, PB b, PC c, PP poke)
+    void wire_ops(Wiring &w, std::int64_t op, std::int64_t wrap, PA a, PB b, PC c, PP poke)
     {
         auto below = [&](auto sel) {
+            if (wrap >= 1 && wrap <= 4)
+            {
+                // wrap 1..4: the dereferenced value goes through nested_<PassThrough> (depth 1: wrap 1,3; depth 2:
+                // wrap 2,4) and the consumers sit in their own nested graph (depth 1: wrap 1,2; depth 2: wrap 3,4)
+                Port<S> v = sel.template as<S>();
+                Port<S> p = (wrap == 1 || wrap == 3) ? nested_<PassThrough<S>>(w, v) : nested_<PassThrough2<S>>(w, v);
+                if (wrap <= 2) { nested_<Below<S>>(w, p, poke); }
+                else { nested_<Below2<S>>(w, p, poke); }
+                wire<RefWatch<S>>(w, sel);
+                return;
+            }
             wire<Cons0<S>>(w, sel);
             wire<Cons1<S>>(w, sel, poke);
             wire<Cons2<S>>(w, sel, poke);
@@ -421,7 +454,7 @@ namespace
     }
 
     template <typename S>
-    void wire_case(Wiring &w, std::int64_t op, std::int64_t prod)
+    void wire_case(Wiring &w, std::int64_t op, std::int64_t prod, std::int64_t wrap)
     {
         auto       poke   = wire<Src<TS<Int>>>(w, Int{7});
         const bool need_c = op == 1 || op == 6 || op == 7;
@@ -433,6 +466,15 @@ namespace
             wire<Direct<S>>(w, tsl_element(list, 2), Int{3});
             auto key = wire<SrcIndex>(w, Int{0});
             auto sel = wire<stdlib::getitem_>(w, list, key);
+            if (wrap >= 1 && wrap <= 4)
+            {
+                Port<S> v = sel.template as<S>();
+                Port<S> p = (wrap == 1 || wrap == 3) ? nested_<PassThrough<S>>(w, v) : nested_<PassThrough2<S>>(w, v);
+                if (wrap <= 2) { nested_<Below<S>>(w, p, poke); }
+                else { nested_<Below2<S>>(w, p, poke); }
+                wire<RefWatch<S>>(w, sel);
+                return;
+            }
             wire<Cons0<S>>(w, sel);
             wire<Cons1<S>>(w, sel, poke);
             wire<Cons2<S>>(w, sel, poke);
@@ -450,7 +492,7 @@ namespace
             wire<Direct<S>>(w, a, Int{1});
             wire<Direct<S>>(w, b, Int{2});
             if (need_c) { wire<Direct<S>>(w, c, Int{3}); }
-            wire_ops<S>(w, op, a, b, c, poke);
+            wire_ops<S>(w, op, wrap, a, b, c, poke);
         }
         else
         {
@@ -462,9 +504,9 @@ namespace
             {
                 auto c = wire<Src<S>>(w, Int{3});
                 wire<Direct<S>>(w, c, Int{3});
-                wire_ops<S>(w, op, a, b, c, poke);
+                wire_ops<S>(w, op, wrap, a, b, c, poke);
             }
-            else { wire_ops<S>(w, op, a, b, a, poke); }
+            else { wire_ops<S>(w, op, wrap, a, b, a, poke); }
         }
     }
 
@@ -472,10 +514,10 @@ namespace
     {
         g     = Ctx{};
         g.out = &out;
-        std::int64_t start = 1, end = 10, shape = 0, op = 0, prod = 0;
+        std::int64_t start = 1, end = 10, shape = 0, op = 0, prod = 0, wrap = 0;
         for (const Line &l : c)
         {
-            if (l[0] == 1 && l.size() >= 3) { start = l[1]; end = l[2]; shape = l.size() > 3 ? l[3] : 0; op = l.size() > 4 ? l[4] : 0; prod = l.size() > 5 ? l[5] : 0; }
+            if (l[0] == 1 && l.size() >= 3) { start = l[1]; end = l[2]; shape = l.size() > 3 ? l[3] : 0; op = l.size() > 4 ? l[4] : 0; prod = l.size() > 5 ? l[5] : 0; wrap = l.size() > 6 ? l[6] : 0; }
             else if (l[0] == 2 && l.size() >= 4 && l[1] >= 0 && l[1] < 8)
             {
                 g.script[l[1]][l[2]] = Payload(l.begin() + 3, l.end());
@@ -486,9 +528,9 @@ namespace
             Wiring w;
             switch (shape)
             {
-                case 1: wire_case<TSS<Int>>(w, op, prod); break;
-                case 2: wire_case<TSD<Int, TS<Int>>>(w, op, prod); break;
-                default: wire_case<TS<Int>>(w, op, prod); break;
+                case 1: wire_case<TSS<Int>>(w, op, prod, wrap); break;
+                case 2: wire_case<TSD<Int, TS<Int>>>(w, op, prod, wrap); break;
+                default: wire_case<TS<Int>>(w, op, prod, wrap); break;
             }
             GraphBuilder         gb = std::move(w).finish();
             GraphExecutorBuilder eb;
